@@ -351,6 +351,12 @@ def shards(tier):
     return out
 
 
+def OPTIMIZED_SHARDS(tier):
+    """repeated in interpreters started with -O: the complete single-edit and deletion sweeps and 30 % of the generated cases"""
+    return ([{"kind": "single_edit_sweep", "scheme": s} for s in S.SCHEMES] + [{"kind": "deletions"}]
+            + [{"kind": "hyp", "scheme": s, "i": 0, "_scale": 0.3} for s in S.SCHEMES])
+
+
 def single_edit_cases(scheme, seed):
     """every single-field edit over the whole value grid (finite, enumerated completely)"""
     f = FIELDS[scheme]
